@@ -1122,7 +1122,15 @@ func (c *C15Gen) guardMisplaced(d int) (ast.IsNode, bool) {
 	h := hasN(gd.base, gd.attr)
 	use := func() ast.IsNode { return c.useBool(p.node, p.ty, d-1) }
 	b := func() ast.IsNode { return c.boolExpr(d - 2) }
-	switch c.pick(7) {
+	switch c.pick(11) {
+	case 7: // the guard on the RIGHT of `||`: the join of "no capabilities" with {h} must be empty
+		return andN(orN(b(), h), use()), true
+	case 8: // …and in the else-branch only
+		return andN(iteN(b(), lit(types.True), h), use()), true
+	case 9:
+		return andN(orN(lit(types.False), orN(b(), h)), use()), true
+	case 10:
+		return andN(iteN(b(), orN(b(), h), h), use()), true
 	case 0:
 		return andN(orN(h, b()), use()), true
 	case 1:
